@@ -41,3 +41,17 @@ Print Assumptions C09_violator_spec.
 
 Example C09_nonvacuous : check_camion_violator 2 2 [[1;1];[1;-1]] [0;1]%nat [0;1]%nat = true.
 Proof. vm_compute; reflexivity. Qed.
+
+(* ---------- the judge accepts EXACTLY the records that satisfy its specification: besides soundness (above) also completeness,
+   i.e. a record of a correct answer is never rejected (JudgeComplete2.v) ---------- *)
+From Cmr Require JudgeComplete2.
+Theorem C09_judge_camion_accepts_exactly_the_specification :
+    forall (rec : list Z) (m n : nat) (M : mat) (rc1 v : Z) (viol : option (list nat * list nat))
+    (rc2 was : Z) (Sg : option (nat * nat * mat)) (viol2 : option (list nat * list nat))
+    (rc3 v' rc4 was2 : Z) (S2 : option (nat * nat * mat)) (rest : list Z),
+    CamionProofs.camion_input rec =
+    Some (m, n, M, (rc1, v, viol), (rc2, was, Sg, viol2), (rc3, v'), (rc4, was2, S2), rest) ->
+    CamionModel.judge_camion rec = 0%Z <->
+    JudgeComplete2.camion_spec m n M rc1 v viol rc2 was Sg viol2 rc3 v' rc4 was2 S2.
+Proof. exact JudgeComplete2.judge_camion_iff. Qed.
+Print Assumptions C09_judge_camion_accepts_exactly_the_specification.
